@@ -203,6 +203,43 @@ func runC39(c *Ctx) {
 		}
 		c.Check(ok, "kes-leaf", ssaFuncKey(f0), f0.Pos(), "leaf = ed25519.Verify(pubKey, msg, sig)", "the leaf verification is not ed25519.Verify(pubKey, msg, signature)")
 	}
+	// 1 << depth may be written as a call to a same-package helper whose body is exactly that
+	pow2Helper := ""
+	for _, hf := range c.pkgFuncs(rel) {
+		if hf.Parent() != nil || len(hf.Params) != 1 || len(hf.Blocks) != 1 {
+			continue
+		}
+		if r, ok := hf.Blocks[0].Instrs[len(hf.Blocks[0].Instrs)-1].(*ssa.Return); ok && len(r.Results) == 1 && desc(r.Results[0]) == "(1 << p0)" {
+			pow2Helper = "call:" + ssaFuncKey(hf) + "("
+		}
+	}
+	pow2Form := func(fact string) string {
+		// call:kes.MaxPeriod(X) → (1 << X)
+		if pow2Helper == "" {
+			return fact
+		}
+		for {
+			i := strings.Index(fact, pow2Helper)
+			if i < 0 {
+				return fact
+			}
+			depth, j := 0, i+len(pow2Helper)-1
+			for ; j < len(fact); j++ {
+				if fact[j] == '(' {
+					depth++
+				} else if fact[j] == ')' {
+					depth--
+					if depth == 0 {
+						break
+					}
+				}
+			}
+			if j >= len(fact) {
+				return fact
+			}
+			fact = fact[:i] + "(1 << " + fact[i+len(pow2Helper):j] + ")" + fact[j+1:]
+		}
+	}
 	// (3) Sign
 	if sg := c.SSAFunc(rel, "Sign"); sg != nil {
 		sk := ssaFuncKey(sg)
@@ -211,7 +248,7 @@ func runC39(c *Ctx) {
 			{"period-in-range", "p1 < (1 << p0.Depth)"},
 			{"period-is-current", "p1 == p0.Period"},
 		} {
-			v := c.mustPass(sg, rets, func(f string) bool { return f == g.fact })
+			v := c.mustPass(sg, rets, func(f string) bool { return pow2Form(f) == g.fact })
 			ok := len(rets) > 0
 			for _, x := range v {
 				if !x.OK {
@@ -231,7 +268,7 @@ func runC39(c *Ctx) {
 	if up := c.SSAFunc(rel, "Update"); up != nil {
 		uk := ssaFuncKey(up)
 		rets := successReturns(up)
-		v := c.mustPass(up, rets, func(f string) bool { return f == "(p0.Period + 1) < (1 << p0.Depth)" })
+		v := c.mustPass(up, rets, func(f string) bool { return pow2Form(f) == "(p0.Period + 1) < (1 << p0.Depth)" })
 		ok := len(rets) > 0
 		for _, x := range v {
 			if !x.OK {
@@ -287,6 +324,36 @@ func runC39(c *Ctx) {
 			d, p := trace(ci.Common().Args[0]), trace(ci.Common().Args[1])
 			if d != "(p0 - 1)" {
 				okAll = false
+			}
+			// one recursive call whose period was chosen before it: every way the chosen value can be the period
+			// itself / the re-based period must come with the matching comparison
+			if ph, isPhi := ci.Common().Args[1].(*ssa.Phi); isPhi && len(ph.Edges) == 2 {
+				merged := true
+				for i, e := range ph.Edges {
+					var wf string
+					switch trace(e) {
+					case "p1":
+						wf = "p1 < (1 << (p0 - 1))"
+						if name != "signInternal" {
+							wf = "p1 < ((1 << (p0 - 1)) - 1)"
+						}
+					case "(p1 - (1 << (p0 - 1)))":
+						wf = "p1 >= (1 << (p0 - 1))"
+						if name != "signInternal" {
+							wf = "p1 != ((1 << (p0 - 1)) - 1)"
+						}
+					default:
+						merged = false
+						continue
+					}
+					if !edgeImpliesMatch(ph.Block().Preds[i], ph.Block(), func(f string) bool { return f == wf }) {
+						merged = false
+					}
+				}
+				if merged {
+					nRec++ // stands for both halves
+					continue
+				}
 			}
 			var wantFact string
 			switch p {
